@@ -253,6 +253,8 @@ class Raised(Exception):
 
 
 class Frame:
+    interp_globals = None      # set per interpreter (module-level rebinding through ``global``)
+
     def __init__(self, fn, module, parent=None):
         self.fn = fn
         self.module = module
@@ -269,6 +271,9 @@ class Frame:
         return None
 
     def assign(self, name, value):
+        if name in getattr(self, 'globals_declared', ()):
+            self.interp_globals[(self.module.name, name)] = value
+            return
         if name in self.nonlocals:
             f = self.parent
             while f is not None:
@@ -309,10 +314,13 @@ class Interp:
         self.max_depth = max_depth
         self._const_cache = {}
         self.foreign_names = set()
+        self.globals_store = {}
+        Frame.interp_globals = self.globals_store
         self._defaults_cache = {}
         self.plan, self.trail, self.memo, self.refine = [], [], {}, {}
         self.paths_run = 0
         self.depth = 0
+        self._import_time = 0
 
     # ---------------------------------------------------------------- path exploration
     def explore(self, fn, args, kwargs=None, closure=None):
@@ -431,10 +439,16 @@ class Interp:
                 # default values are evaluated once, at definition time (a mutable default is shared)
                 ck = (fn.key, n)
                 if ck not in self._defaults_cache:
-                    self._defaults_cache[ck] = self.eval(defaults[n], Frame(fn, fn.module, None))
+                    self._import_time += 1
+                    try:
+                        self._defaults_cache[ck] = self.eval(defaults[n], Frame(fn, fn.module, None))
+                    finally:
+                        self._import_time -= 1
                 fr.vars[n] = self._defaults_cache[ck]
-            else:
+            elif '**' in kwargs or '**pairs' in kwargs:
                 raise Undecided('missing argument %s for %s' % (n, fn.key))
+            else:
+                raise Raised('TypeError: missing argument %s for %s' % (n, fn.key), fn.node.lineno)
 
     # ---------------------------------------------------------------- statements
     def exec_block(self, stmts, fr):
@@ -533,7 +547,9 @@ class Interp:
                     fr.vars[al.asname or al.name] = self.global_name(target, al.name, st)
                 else:
                     fr.vars[al.asname or al.name] = Prim(al.name)
-        elif isinstance(st, (ast.Import, ast.ImportFrom, ast.Global)):
+        elif isinstance(st, ast.Global):
+            fr.globals_declared = getattr(fr, 'globals_declared', set()) | set(st.names)
+        elif isinstance(st, (ast.Import, ast.ImportFrom)):
             return
         else:
             raise Undecided('statement %s at line %d' % (type(st).__name__, st.lineno))
@@ -583,6 +599,9 @@ class Interp:
         return self.global_name(fr.module, n.id, n)
 
     def global_name(self, module, name, node=None):
+        gk = (module.name if module else None, name)
+        if gk in self.globals_store and not self._import_time:
+            return self.globals_store[gk]
         if name in self.prims:
             return Prim(name)
         key = (module.name if module else None, name)
@@ -602,8 +621,14 @@ class Interp:
                 if r[0] == 'class':
                     return TypeV(r[1].name)
                 if r[0] == 'const':
+                    # module-level assignments are evaluated at import time: before any rebinding of globals, and
+                    # reads of mutable foreign state (sys.stdout) are snapshots, not call-time reads
                     fr = Frame(None, r[1], None)
-                    return self.eval(r[2], fr)
+                    self._import_time += 1
+                    try:
+                        return self.eval(r[2], fr)
+                    finally:
+                        self._import_time -= 1
                 if r[0] == 'external':
                     short = r[1].split('.')[-1]
                     if short in BUILTIN_TYPES or short in ('SimpleNamespace', 'ModuleType', 'FunctionType', 'BuiltinFunctionType'):
@@ -688,10 +713,16 @@ class Interp:
         if isinstance(obj, Prim):
             if obj.name == 'sys' and attr == 'maxsize':
                 return Const(2 ** 63 - 1)
+            if ('method:' + attr) in self.prims:
+                return BoundV(obj, attr)
+            if self._import_time and obj.name == 'sys' and attr in ('stdout', 'stderr', 'stdin'):
+                return Prim('sys.%s@import-time' % attr)
             return Prim('%s.%s' % (obj.name, attr))
         raise Undecided('attribute .%s of %r' % (attr, obj))
 
     def e_Call(self, n, fr):
+        if isinstance(n.func, ast.Name) and n.func.id == 'locals' and not n.args and fr.lookup('locals') is None:
+            return DictV([(Const(k), v) for k, v in fr.vars.items()])
         f = self.eval(n.func, fr)
         args = []
         for a in n.args:
@@ -893,6 +924,12 @@ class Interp:
             return l.name == r.name
         if isinstance(l, (Sym, SymStr)) and isinstance(r, (Sym, SymStr)) and l.prov == r.prov:
             return True
+        if isinstance(l, ObjV) or isinstance(r, ObjV):
+            if isinstance(l, ObjV) and isinstance(r, ObjV):
+                return l is r
+            if isinstance(l, (Sym, SymStr)) or isinstance(r, (Sym, SymStr)):
+                return None
+            return False
         if isinstance(l, DocV) and isinstance(r, DocV):
             if l.t is D.NIL or r.t is D.NIL or l.t is D.HL or r.t is D.HL:
                 return l.t is r.t
@@ -1419,6 +1456,9 @@ class Interp:
 
     def p_warn(self, a, k, n):
         return NONE
+
+    def p_MappingProxyType(self, a, k, n):
+        return a[0]
 
     def p_divmod(self, a, k, n):
         return TupleV([Sym('(%s//%s)' % (_prov(a[0]), _prov(a[1])), 'int'), Sym('(%s%%%s)' % (_prov(a[0]), _prov(a[1])), 'int')])
